@@ -1,19 +1,20 @@
 (* props/C03.v -- C03: graph-library round trips are faithful and the backends agree. *)
-From Geff Require Import Base Dtype Vlen Tree Validate Write Read WriteLemmas Dicts Backends BackendsLemmas DictsLemmas C03Lemmas SgLemmas.
+From Geff Require Import Base Dtype Vlen Tree Validate Write Read WriteLemmas Dicts Backends BackendsLemmas DictsLemmas ListColLemmas C03Lemmas SgLemmas SgWriteLemmas.
 Open Scope string_scope.
 Open Scope list_scope.
 
 (* ---- networkx: geff.write(G, fresh store) ; geff.read(store, backend="networkx") ; adapter view ----
    For every directed / undirected graph of any size with distinct node ids in [0, 2^64), edges between its nodes, no edge twice
-   (as unordered pairs when undirected), non-empty property names, and scalar attributes present on ANY subset of the nodes / edges
-   such that each property column -- its values together with the fill value used where an element lacks it -- is typed alike by
-   numpy (col_dt: all bool, all int64-range ints, all ints of [2^63,2^64) on every element, all float, all str):
-   the write succeeds, and the graph read back has the same directedness, the same node ids and the same edges in the same order, and on
-   every node / edge EXACTLY the properties it had -- a property it lacked is absent (no fill value) -- with the same value and the
-   same kind (bool / int / float / str). *)
-Theorem C03_nx_roundtrip : forall d g mdtok axtok, dom_scalar d g ->
-  exists cg, nx_rt d g mdtok axtok = Ok cg /\ same_graph cv_scalar d g cg.
-Proof. exact nx_rt_scalar. Qed.
+   (as unordered pairs when undirected), non-empty property names, and attributes present on ANY subset of the nodes / edges such
+   that each property column (val_col) -- its values together with the fill value used where an element lacks it -- consists of
+   Python scalars numpy types alike (all bool, all int64-range ints, all ints of [2^63,2^64) on every element, all float, all str),
+   or of nested lists of one shape, or of nested lists of one rank and different shapes (ragged), with leaves typed alike:
+   the write succeeds, and the graph read back has the same directedness, the same node ids and the same edges in the same order,
+   and on every node / edge EXACTLY the properties it had -- a property it lacked is absent (no fill value) -- with the same value,
+   the same kind (bool / int / float / str) and, for arrays, the same shape and element kind (cv_of_py). *)
+Theorem C03_nx_roundtrip : forall d g mdtok axtok, dom_values d g ->
+  exists cg, nx_rt d g mdtok axtok = Ok cg /\ same_graph cv_of_py d g cg.
+Proof. exact nx_rt_values. Qed.
 Print Assumptions C03_nx_roundtrip.
 
 (* the same, step by step and for any value class whose columns are stored faithfully (cols_ok): the store validates, read_to_memory
@@ -29,9 +30,9 @@ Print Assumptions C03_nx_roundtrip_steps.
 
 (* ---- rustworkx: the written graph is identified through node_indices() / node_id_dict (rx_target: index holes, explicit id
    maps; a missing key is a KeyError), the graph read back through graph.attrs["to_rx_id_map"] (canon_rx) ---- *)
-Theorem C03_rx_roundtrip : forall d g idmap g' mdtok axtok, rx_target idmap g = Ok g' -> dom_scalar d g' ->
-  exists cg, rx_rt d g idmap mdtok axtok = Ok cg /\ same_graph cv_scalar d g' cg.
-Proof. exact rx_rt_scalar. Qed.
+Theorem C03_rx_roundtrip : forall d g idmap g' mdtok axtok, rx_target idmap g = Ok g' -> dom_values d g' ->
+  exists cg, rx_rt d g idmap mdtok axtok = Ok cg /\ same_graph cv_of_py d g' cg.
+Proof. exact rx_rt_values. Qed.
 Print Assumptions C03_rx_roundtrip.
 
 Theorem C03_rx_roundtrip_steps : forall cvf d g idmap g' mdtok axtok, rx_target idmap g = Ok g' -> dom_dicts cvf d g' ->
@@ -52,12 +53,18 @@ Theorem C03_rx_ids : forall idmap g g', rx_translate idmap g = Ok g' ->
 Proof. exact rx_translate_spec. Qed.
 Print Assumptions C03_rx_ids.
 
-(* ---- one property column: what dict_props_to_arr stores ---- *)
-Theorem C03_column : forall col d, col_dt col = Some d -> col <> [] ->
+(* ---- one property column: what dict_props_to_arr stores ----
+   good_col: the stored property has one value and (if any element lacks the property) one mask entry per element; the mask flags
+   exactly the elements that lack it; every present value reads back as its canonical value; the property is accepted by the writer *)
+Theorem C03_column : forall col, val_col col -> exists p, dict_prop col = Ok p /\ good_col cv_of_py col p.
+Proof. exact val_col_good. Qed.
+Print Assumptions C03_column.
+
+Theorem C03_column_scalar : forall col d, col_dt col = Some d -> col <> [] ->
   exists p, dict_prop col = Ok p /\ good_col cv_scalar col p /\
             p_vals p = PFixed (mkarr d [length col] (map scalar_payload (filled col))).
 Proof. exact scalar_column. Qed.
-Print Assumptions C03_column.
+Print Assumptions C03_column_scalar.
 
 (* the fill value has the Python type of the first present value: a bool property stays bool *)
 Theorem C03_fill_kind : forall v,
@@ -88,6 +95,24 @@ Theorem C03_sg_construct : forall g pos ids es names dt cg,
 Proof. exact sg_construct_canon. Qed.
 Print Assumptions C03_sg_construct.
 
+(* ---- spatial-graph: geff.write(G, axis_names=names) ; geff.read(backend="spatial-graph") ----
+   For every non-empty spatial graph (sgc_dom: distinct integer node ids, edges between them, no edge twice, ndims = number of axis
+   names, distinct non-empty axis names that are not attribute names, int8..uint64 / float32 / float64 scalar or vector attributes):
+   the write succeeds (the position attribute is stored as one property per axis), the store validates, and the graph constructed
+   from it has the same nodes array, edges array, directedness and ndims, and the SAME SgGraphAdapter view (every attribute and every
+   position component under its axis name, values and kinds) as the graph that was written. *)
+Theorem C03_sg_roundtrip : forall s names ids es P mdtok axtok, sgc_dom s names ids es P ->
+  exists post mg s' cg,
+    run (api_write KObj (sg_write KObj s None (Some names) mdtok axtok)) None = (Some post, Ok tt) /\
+    validate_structure KObj (Some post) = Ok tt /\
+    read_to_memory KObj (Some post) true None None = Ok mg /\
+    sg_construct mg (sc_pos s) = Ok s' /\
+    canon_sg s' names (akeys (g_nprops mg)) (akeys (g_eprops mg)) = Ok cg /\
+    canon_sg s names (akeys (g_nprops mg)) (akeys (g_eprops mg)) = Ok cg /\
+    sc_directed s' = sc_directed s /\ sc_ndims s' = sc_ndims s /\ sc_nodes s' = sc_nodes s /\ sc_edges s' = sc_edges s.
+Proof. exact sg_roundtrip. Qed.
+Print Assumptions C03_sg_roundtrip.
+
 (* ---- the property text without the int64 guard is false (open finding int-beyond-int64-becomes-float) ----
    C03_nx_roundtrip_full drops the dtype guard: columns whose present values are Python scalars of one type, ints anywhere in
    [-2^63, 2^64).  Witness: nodes {1: p=1, 2: p=2^63} come back as {1: p=1.0, 2: p=2^63 as float}. *)
@@ -108,6 +133,31 @@ Print Assumptions C03_int_beyond_int64_witnesses.
 Definition ex_g : dgraph :=
   mkdg [(1%Z, [("b", PBool true); ("s", PStr 7)]); (9223372036854775813%Z, []); (18446744073709551615%Z, [("b", PBool false)])]
        [((9223372036854775813%Z, 1%Z), [("w", PFloat 1536)]); ((1%Z, 18446744073709551615%Z), [])].
+
+(* list-valued attributes: a fixed-shape (2,) list on two of three nodes and a ragged list on two edges *)
+Definition ex_lists : dgraph :=
+  mkdg [(5%Z, [("v", PList [PInt 1; PInt 2])]); (3%Z, []); (9%Z, [("v", PList [PInt (-3); PInt 4])])]
+       [((5%Z, 3%Z), [("r", PList [PFloat 512])]); ((3%Z, 9%Z), [("r", PList [PFloat 1024; PFloat 2048])])].
+
+Example C03_lists_nonvacuous :
+  dom_values true ex_lists /\
+  nx_rt true ex_lists 0 0
+  = Ok (mkcg true [(5%Z, [("v", CArr SInt [2%nat] [1; 2]%Z)]); (3%Z, []); (9%Z, [("v", CArr SInt [2%nat] [-3; 4]%Z)])]
+                  [((5%Z, 3%Z), [("r", CArr SFloat [1%nat] [512]%Z)]); ((3%Z, 9%Z), [("r", CArr SFloat [2%nat] [1024; 2048]%Z)])]).
+Proof.
+  split; [|vm_compute; reflexivity].
+  constructor.
+  - repeat constructor; cbn; lia.
+  - reflexivity.
+  - reflexivity.
+  - intros e He. cbn in He. destruct He as [<-|[<-|[]]]; cbn; auto.
+  - intros name Hin. vm_compute in Hin. destruct Hin as [<-|[]]. split; [discriminate|]. split; [discriminate|].
+    right. left. exists DI64, [2%nat]. split; [right; left; reflexivity|]. split; [discriminate|].
+    vm_compute. repeat constructor; try discriminate.
+  - intros name Hin. vm_compute in Hin. destruct Hin as [<-|[]]. split; [discriminate|]. split; [discriminate|].
+    right. right. exists DF64, 1%nat. split; [right; right; right; left; reflexivity|]. split; [reflexivity|].
+    vm_compute. constructor; [exists [1%nat] | constructor; [exists [2%nat] | constructor]]; repeat constructor; try discriminate.
+Qed.
 
 Example C03_nonvacuous :
   dom_scalar false ex_g /\
@@ -163,4 +213,31 @@ Proof.
     + intros nm [<-|[<-|[]]]; eexists; (split; [reflexivity | split; reflexivity]).
   - repeat constructor.
   - repeat constructor.
+Qed.
+
+(* a spatial graph with 2 nodes (ids 5, 3), position float64[2], an int64 attribute, one edge with a float64 attribute: in the domain;
+   the adapter view of the written graph, which C03_sg_roundtrip shows to be the view of the graph read back *)
+Definition ex_pos : arr := mkarr DF64 [2%nat; 2%nat] [1024; 2048; 512; -512]%Z.
+Definition ex_sg : sgc :=
+  mksgc true 2 (mkarr DU64 [2%nat] [5; 3]%Z) "position" [("a", mkarr DI64 [2%nat] [7; 8]%Z); ("position", ex_pos)]
+        (mkarr DU64 [1%nat; 2%nat] [5; 3]%Z) [("w", mkarr DF64 [1%nat] [1536]%Z)].
+
+Example C03_sg_nonvacuous :
+  sgc_dom ex_sg ["x"; "y"] [5; 3]%Z [(5, 3)]%Z ex_pos /\
+  canon_sg ex_sg ["x"; "y"] ["a"; "x"; "y"] ["w"]
+  = Ok (mkcg true [(5%Z, [("a", CScalar SInt 7); ("x", CScalar SFloat 1024); ("y", CScalar SFloat 2048)]);
+                  (3%Z, [("a", CScalar SInt 8); ("x", CScalar SFloat 512); ("y", CScalar SFloat (-512))])]
+                 [((5%Z, 3%Z), [("w", CScalar SFloat 1536)])]).
+Proof.
+  split; [|vm_compute; reflexivity].
+  constructor; try reflexivity; try discriminate.
+  - intros e [<-|[]]; cbn; auto.
+  - repeat constructor; cbn; intuition discriminate.
+  - intros nm [<-|[<-|[]]]; (split; [discriminate | cbn; intuition discriminate]).
+  - repeat constructor; cbn; intuition discriminate.
+  - intros nm [<-|[<-|[]]]; discriminate.
+  - repeat constructor; cbn; intuition.
+  - intros nm [<-|[]]; discriminate.
+  - constructor; [split; [reflexivity | left; split; reflexivity] | constructor; [split; [reflexivity | right; exists 2%nat; split; reflexivity] | constructor]].
+  - constructor; [split; [reflexivity | left; split; reflexivity] | constructor].
 Qed.
